@@ -82,6 +82,7 @@ def case_term(case, refmode, out):
         truth = f"({truth_term(case['truth_all'])}, [])"
         must = "([], [], [])"
     rt = f"(Some {seq_term(ref)})" if refmode else "None"
+    rt = f"({rt}, {case.get('threshold', 100000)}%Z)"
     return f"(({rt}, {vs},\n  {alns},\n  {truth}, {must},\n  {out_term(out)}) : case_t)"
 
 
@@ -118,7 +119,8 @@ def run_impl(wd, case, refmode, perturb=None):
         fasta = pyfaidx.Fasta(fa, as_raw=True, sequence_always_upper=True)
         reference = fasta[CHROM]
     try:
-        with ReadSetReader([bam], reference=None, numeric_sample_ids=NumericSampleIds()) as rsr:
+        with ReadSetReader([bam], reference=None, numeric_sample_ids=NumericSampleIds(),
+                           supplementary_distance_threshold=case.get("threshold", 100000)) as rsr:
             rs = rsr.read(CHROM, variants, SAMPLE, reference)
             out = sorted((int(r.name[1:]), [(v.position, v.allele, v.quality) for v in r]) for r in rs)
     except AssertionError:
@@ -201,9 +203,20 @@ def gen_case(rng, small=False):
                 c0 = max(c0, lo)
                 c1 = max(c1, min(len(cols), c0 + 8))
             skip = None
-            if rng.random() < 0.2 and c1 - c0 > 12:
+            if rng.random() < 0.25 and c1 - c0 > 12:
                 a = cols[rng.randint(c0 + 2, c1 - 6)][1]
                 skip = (a, a + rng.randint(1, 25))
+                if rng.random() < 0.5 and (events or listed):
+                    # a skip that begins shortly after / ends shortly before a variant
+                    v = rng.choice(events + listed)
+                    if rng.random() < 0.5:
+                        a = v[0] + len(v[1]) + rng.choice([0, 1, 2, 5, 9])
+                        skip = (a, a + rng.randint(1, 25))
+                    else:
+                        b = v[0] - rng.choice([0, 1, 2, 5, 9])
+                        skip = (max(1, b - rng.randint(1, 25)), b)
+                    if not (skip[0] < skip[1] and cols[c0][1] + 1 < skip[0] and skip[1] < cols[c1 - 1][1]):
+                        skip = None
             soft = (rng.choice([0, 0, 0, 2, 7]), rng.choice([0, 0, 0, 3, 9]))
             hard = (rng.choice([0, 0, 0, 4]), rng.choice([0, 0, 0, 5]))
             al = G.make_alignment(rng, cols, c0, c1, style=style, skip=skip, soft=soft, hard=hard, split_prob=split_prob)
@@ -241,7 +254,9 @@ def gen_case(rng, small=False):
         nid += 1
     if not alns:
         return None
-    return finish_case(ref, listed, carried, cols, alns)
+    # mostly the default supplementary distance threshold; sometimes one of the order of the read length
+    threshold = 100000 if rng.random() < 0.85 else rng.choice([5, 20, 60, 150])
+    return finish_case(ref, listed, carried, cols, alns, threshold)
 
 
 def usable(a):
@@ -249,7 +264,11 @@ def usable(a):
     return not (f & 0x800 or f & 0x100 or f & 0x4 or f & 0x400 or a.get("mapq", 60) < 20)
 
 
-def finish_case(ref, listed, carried, cols, alns):
+def ref_end(a):
+    return a["start"] + sum(n for o, n in a["cigar"] if o in "MDN=X")
+
+
+def finish_case(ref, listed, carried, cols, alns, threshold=100000):
     """group-level ground truth.  A statement about (read name, variant) is only made when every usable alignment of
     that name that touches the variant fully covers it (a partially covering mate may report anything)."""
     alns = sorted(alns, key=lambda a: a["start"])          # stable, the same order synth.write_bam produces
@@ -263,7 +282,10 @@ def finish_case(ref, listed, carried, cols, alns):
     keys = ("truth_all", "truth_clean", "truth_skip", "must", "must_skip", "must_pair")
     res = {k: {} for k in keys}
     for n, g in by_name.items():
-        prim_rev = bool(g[-1].get("flag", 0) & 0x10)        # strand of the last primary alignment of the group
+        prim = g[-1]
+        prim_rev = bool(prim.get("flag", 0) & 0x10)         # strand of the last primary alignment of the group
+        # alignments further than the threshold from the primary one are excluded from the group by design
+        near = [a for a in g if max(a["start"] - ref_end(prim), prim["start"] - ref_end(a), 0) <= threshold]
         for idx, v in enumerate(listed):
             touching = [a for a in g if idx in a["touch"]]
             if not touching or not all(idx in a["t"] for a in touching):
@@ -271,17 +293,18 @@ def finish_case(ref, listed, carried, cols, alns):
             allele = touching[0]["t"][idx][0]
             wins = {a["t"][idx][1] for a in touching}
             res["truth_all"].setdefault(n, {})[v[0]] = allele
-            same = [a for a in touching if bool(a.get("flag", 0) & 0x10) == prim_rev]
+            same = [a for a in touching if bool(a.get("flag", 0) & 0x10) == prim_rev and a in near]
             if wins == {"clean"}:
                 res["truth_clean"].setdefault(n, {})[v[0]] = allele
-                res["must_pair"].setdefault(n, set()).add(v[0])
+                if [a for a in touching if a in near]:
+                    res["must_pair"].setdefault(n, set()).add(v[0])
                 if same:
                     res["must"].setdefault(n, set()).add(v[0])
             elif wins <= {"clean", "skip"}:
                 res["truth_skip"].setdefault(n, {})[v[0]] = allele
                 if same:
                     res["must_skip"].setdefault(n, set()).add(v[0])
-    case = dict(ref=ref, listed=listed, carried=sorted(carried), alns=alns, ncov=ncov)
+    case = dict(ref=ref, listed=listed, carried=sorted(carried), alns=alns, ncov=ncov, threshold=threshold)
     for k in keys:
         case[k] = [(n, sorted(t.items()) if isinstance(t, dict) else sorted(t)) for n, t in sorted(res[k].items())]
     return case
@@ -291,7 +314,7 @@ KEYS = ("truth_all", "truth_clean", "truth_skip", "must", "must_skip", "must_pai
 
 
 def case_json(case):
-    d = dict(ref=case["ref"], listed=[list(v) for v in case["listed"]],
+    d = dict(ref=case["ref"], listed=[list(v) for v in case["listed"]], threshold=case.get("threshold", 100000),
              alns=[dict(nid=a["nid"], start=a["start"], cigar=[list(c) for c in a["cigar"]], seq=a["seq"],
                         quals=a["quals"], flag=a.get("flag", 0), mapq=a.get("mapq", 60),
                         **({"mate_start": a["mate_start"]} if "mate_start" in a else {})) for a in case["alns"]])
@@ -308,7 +331,7 @@ def case_from_json(d):
         a["cigar"] = [tuple(c) for c in a["cigar"]]
         a["qarr"] = array.array("B", a["quals"])
         alns.append(a)
-    case = dict(ref=d["ref"], listed=[tuple(v) for v in d["listed"]], alns=alns, ncov=1)
+    case = dict(ref=d["ref"], listed=[tuple(v) for v in d["listed"]], alns=alns, ncov=1, threshold=d.get("threshold", 100000))
     for k in KEYS:
         case[k] = [(n, [tuple(x) if isinstance(x, list) else x for x in t]) for n, t in d[k]]
     return case
@@ -348,7 +371,8 @@ if _bits:
     CHECKS["L2"] = "l2_model_with (mkRules " + " ".join("true" if c == "1" else "false" for c in _bits) + ")"
 L1_KEYS = ("L1wrong", "L1wrong_skip", "L1overlap", "L1missing", "L1missing_skip", "L1missing_pair", "L1crash")
 # attribution of failing cases to the switchable rules of the model (second Coq round, failing cases only)
-ATTRIB = {"rule0": "not_needed 0", "rule1": "not_needed 1", "rule2": "not_needed 2", "rule3": "not_needed 3"}
+ATTRIB = {"rule0": "not_needed 0", "rule1": "not_needed 1", "rule2": "not_needed 2", "rule3": "not_needed 3",
+          "rule4": "not_needed 4"}
 
 # one signature per defect class (= per switchable rule of the model); everything else keeps a generic signature
 RULE_SIG = {
@@ -365,6 +389,10 @@ RULE_SIG = {
               "_detect_alleles uses ref_end = ref_pos + length at an I operation: an insertion variant less than `length` "
               "bases downstream is queued against the wrong query bases and reported as REF (wrong allele / allele for a "
               "variant beyond the read end)"),
+    "rule4": ("group:alignment-beyond-distance-threshold-of-itself",
+              "AlignedRead.distance is max(other.end - self.start, other.start - self.end, 0) instead of the gap between the "
+              "two alignments: a primary alignment whose reference span exceeds supplementary_distance_threshold (default "
+              "100000) drops out of its own group and the read loses every allele; a mate to the right is measured to its end"),
 }
 GENERIC = {"L1wrong": "detect:wrong-allele", "L1wrong_skip": "detect:wrong-allele", "L1overlap": "detect:allele-for-non-overlapped-variant",
            "L1missing": "realign:allele-not-found", "L1missing_skip": "realign:allele-not-found",
@@ -396,6 +424,7 @@ def check_cases(ctx, wd, cases, label, perturb=None):
             for v in case["listed"]:
                 ctx.tally("listed." + G.kind_of(v))
             ctx.tally("covered_variant_instances", case["ncov"])
+            ctx.tally(f"distance_threshold.{case.get('threshold', 100000)}")
             for k in KEYS:
                 ctx.tally("truth." + k, sum(len(t) for _, t in case[k]))
     failing, errors = eval_checks("C06", HEADER, CHECKS, terms, shard=ctx.n(40, 150), timeout=1500)
@@ -408,7 +437,7 @@ def describe(case, refmode, out):
     return (f"reference={'yes' if refmode else 'no'} ref={case['ref']} variants={case['listed']} "
             f"alignments={[(a['nid'], a['start'], cig_str(a['cigar']), a['seq'], a.get('flag', 0)) for a in case['alns']]} "
             f"truth={case['truth_clean'] if refmode else case['truth_all']} truth_skip={case['truth_skip'] if refmode else []} "
-            f"must={case['must_pair'] if refmode else []} detected={out}")
+            f"must={case['must_pair'] if refmode else []} distance_threshold={case.get('threshold', 100000)} detected={out}")
 
 
 def cig_str(c):
@@ -444,6 +473,9 @@ def report(ctx, raw, failing):
         case, refmode, out = raw[i]
         # not a verdict about the code: the repaired rules of the model must satisfy all clauses
         ctx.l2_disagreement("repaired rules satisfy the specification", [{"case": case_json(case), "refmode": refmode}])
+        ctx.violation("correspondence:repaired-rules",
+                      f"the repaired rules of the model do not satisfy the specification on this input: {describe(case, refmode, out)}",
+                      {"case": case_json(case), "refmode": refmode}, found_input=False)
 
 
 def run(ctx, perturb=None):
@@ -470,6 +502,42 @@ def run(ctx, perturb=None):
         ctx.disagreements_checked += len(l2)
         ctx.l2_disagreement("AlleleDetect.read_set = ReadSetReader.read (L2)",
                             [{"case": case_json(c), "refmode": m, "impl": o} for c, m, o in l2])
+        known = {sig for sig, _ in RULE_SIG.values()}
+        if not any(v["signature"] not in known for v in ctx.violations):
+            # the model no longer describes the code: search for an input violating the property text itself.
+            # First the disagreeing cases reduced to single alignments, then a wider seeded sample; verdicts in Coq.
+            cand = []
+            for c, m, o in l2[:40]:
+                for a in c["alns"]:
+                    if usable(a):
+                        cand.append(restrict_case(c, [a]))
+            more = []
+            while len(more) < ctx.n(300, 1500):
+                c = gen_case(rng, small=True)
+                if c is not None:
+                    more.append(c)
+            raw2, failing2 = check_cases(ctx, wd, cand + more, "search", perturb)
+            report(ctx, raw2, failing2)
+        if not any(v["signature"] not in known for v in ctx.violations):
+            # (the framework's own "no failing input found" line is suppressed by the violations of the known defect
+            # classes, so it is emitted here)
+            ctx.violation("correspondence:AlleleDetect.read_set",
+                          f"model correspondence no longer checks on {len(l2)} cases (ReadSetReader.read differs from "
+                          f"AlleleDetect.read_set); search found no input violating the property text beyond the known defect classes",
+                          {"broken_correspondence": ["AlleleDetect.read_set = ReadSetReader.read (L2)"],
+                           "disagreeing_cases": [{"case": case_json(c), "refmode": m, "impl": o} for c, m, o in l2[:5]]},
+                          found_input=False)
+
+
+def restrict_case(case, alns):
+    """the same scenario with only the given alignments (ground truth restricted accordingly)"""
+    names = {a["nid"] for a in alns}
+    c = dict(case)
+    c["alns"] = alns
+    for k in KEYS:
+        c[k] = [(n, t) for n, t in case[k] if n in names and len([a for a in case["alns"] if a["nid"] == n and usable(a)]) ==
+                len([a for a in alns if a["nid"] == n])]
+    return c
 
 
 def replay(ctx, data):
